@@ -514,7 +514,31 @@ def c13_8(ctx):
     return out
 
 
+def c13_11(ctx):
+    """MEMO: no method of the modules this property is anchored in answers from a value remembered from an earlier argument or an
+    earlier state of the object (confirmed caches of the reference tree: sa/memo.py CONFIRMED_CACHES)"""
+    from sa.memo import cache_obligation
+    return cache_obligation(ctx, ["taproot", "tx", "pecc"], "a leaf, tree, coefficient or nonce sum computed for one key set would be returned for another")
+
+
+def c13_12(ctx):
+    """SET-ORDER: no ordered result (list, serialisation, yielded sequence) of the modules this property is anchored in takes its
+    order from the iteration order of a set"""
+    from sa.setorder import setorder_obligation
+    return setorder_obligation(ctx, ["taproot", "tx", "pecc"], "the same inputs give different output from run to run")
+
+
+def c13_13(ctx):
+    """SHARED necessary conditions over the modules this property is anchored in: FALSY-DEFAULT, MUTABLE-DEFAULT, IDENTITY, ALIAS,
+    CTOR-FORWARD (sa/shared.py)"""
+    from sa.shared import shared_obligations
+    return shared_obligations(ctx, ["taproot", "tx", "pecc"], "the result would depend on something other than the arguments and the object's current state")
+
+
 OBLIGATIONS = [
+    ("C13.13", "SHARED", c13_13),
+    ("C13.12", "SET-ORDER", c13_12),
+    ("C13.11", "MEMO", c13_11),
     ("C13.1", "ORDER", c13_1),
     ("C13.2", "GUARD", c13_2),
     ("C13.3", "COUNT", c13_3),
